@@ -120,18 +120,16 @@ func (m *Machine) inputInt(name string, lo, hi int64) value {
 		ps.note(name, strconv.FormatInt(lo, 10))
 		return lo
 	}
-	v := m.Ctx.Var(name, sym.BV(64))
+	v := m.Ctx.IntVar(name, lo, hi)
 	c := lo
 	if mv, ok := m.Model[name]; ok {
-		c = int64(mv.U)
+		c = sym.IntVarValue(mv, lo, hi)
 	}
 	if c < lo || c > hi {
 		// model value outside the domain (variable was unconstrained in the query)
 		c = lo
-		m.Model[name] = sym.Val{U: uint64(c)}
-	} else if _, ok := m.Model[name]; !ok {
-		m.Model[name] = sym.Val{U: uint64(c)}
 	}
+	m.Model[name] = sym.IntVarEncode(c, lo, hi)
 	m.Domains[name] = [2]int64{lo, hi}
 	if _, seen := ps.Inputs[name]; !seen {
 		m.AssumeFixed(m.Ctx.And(m.Ctx.BvCmp(sym.OBvSle, m.Ctx.BVC(64, uint64(lo)), v), m.Ctx.BvCmp(sym.OBvSle, v, m.Ctx.BVC(64, uint64(hi)))), "domain:"+name)
